@@ -30,6 +30,7 @@ type leafTr struct {
 	ptrs    map[string]bool            // pointer parameters (translated to Option)
 	structs map[string]map[string]string // struct name -> field -> Lean type (fields actually used)
 	globals map[string]string          // package-level struct values used -> Lean term
+	deps    map[string]bool            // other translated functions called
 	err     error
 }
 
@@ -163,6 +164,17 @@ func (t *leafTr) expr(e ast.Expr) string {
 			return t.expr(x.Args[0]) // an error is represented by its HTTP status code
 		case "int", "int64":
 			return t.expr(x.Args[0])
+		}
+		// a call of another translated function of the same package
+		if id, ok := x.Fun.(*ast.Ident); ok {
+			if _, isFunc := ti.Uses[id].(*types.Func); isFunc && isLeafTarget(id.Name) {
+				t.deps[id.Name] = true
+				parts := []string{id.Name}
+				for _, a := range x.Args {
+					parts = append(parts, t.expr(a))
+				}
+				return "(" + strings.Join(parts, " ") + ")"
+			}
 		}
 		return t.fail("call of %s", fn)
 	case *ast.SliceExpr:
@@ -341,7 +353,7 @@ func translateLeaf(p *packages.Package, recv, name string) (def string, t *leafT
 	if fd == nil || fd.Body == nil {
 		return "", nil, fmt.Errorf("function %s.%s not found", recv, name)
 	}
-	t = &leafTr{p: p, ptrs: map[string]bool{}, structs: map[string]map[string]string{}, globals: map[string]string{}}
+	t = &leafTr{p: p, ptrs: map[string]bool{}, structs: map[string]map[string]string{}, globals: map[string]string{}, deps: map[string]bool{}}
 	var params []string
 	for _, f := range fd.Type.Params.List {
 		ty := p.TypesInfo.TypeOf(f.Type)
@@ -382,9 +394,22 @@ func translateLeaf(p *packages.Package, recv, name string) (def string, t *leafT
 
 type leafTarget struct{ pkg, recv, name string }
 
+func isLeafTarget(name string) bool {
+	for _, tg := range leafTargets {
+		if tg.name == name && tg.recv == "" {
+			return true
+		}
+	}
+	return false
+}
+
+func leafFile(name string) string { return strings.ToUpper(name[:1]) + name[1:] }
+
 var leafTargets = []leafTarget{
 	{"bt", "table", "validTimestamp"},
 	{"bt", "", "keysOutOfRange"},
+	{"bt", "", "messageOnInvalidKeyRanges"},
+	{"bt", "", "maxTimestamp"},
 	{"gcs", "", "greaterThanPrefix"},
 	{"gcs", "", "lessThanPrefix"},
 	{"gcs", "", "validateConds"},
@@ -412,7 +437,16 @@ func writeLeaf(dir string, pkgs map[string]*packages.Package, f *Facts) {
 			continue
 		}
 		var sb strings.Builder
-		sb.WriteString("/- GENERATED by /verif/factx (leaf translator) from /repo's current source on every run. Do not edit.\n   Literal translation of `" + tg.name + "`; `Emu/Proofs/LeafTie/` proves it equal to the Model's function. -/\nimport Emu.Generated.Leaf.Base\nnamespace Emu.Generated.Leaf\n\n")
+		sb.WriteString("/- GENERATED by /verif/factx (leaf translator) from /repo's current source on every run. Do not edit.\n   Literal translation of `" + tg.name + "`; `Emu/Proofs/LeafTie/` proves it equal to the Model's function. -/\nimport Emu.Generated.Leaf.Base\n")
+		var deps []string
+		for d := range t.deps {
+			deps = append(deps, d)
+		}
+		sort.Strings(deps)
+		for _, d := range deps {
+			sb.WriteString("import Emu.Generated.Leaf." + leafFile(d) + "\n")
+		}
+		sb.WriteString("namespace Emu.Generated.Leaf\n\n")
 		var names []string
 		for s := range t.structs {
 			names = append(names, s)
@@ -448,7 +482,7 @@ func writeLeaf(dir string, pkgs map[string]*packages.Package, f *Facts) {
 			sb.WriteString("\n")
 		}
 		sb.WriteString(def + "\n\nend Emu.Generated.Leaf\n")
-		writeIfChanged(dir+"/"+strings.ToUpper(tg.name[:1])+tg.name[1:]+".lean", sb.String())
+		writeIfChanged(dir+"/"+leafFile(tg.name)+".lean", sb.String())
 	}
 }
 
